@@ -1,6 +1,7 @@
 package client
 
 import (
+	"bytes"
 	"context"
 	"crypto/subtle"
 	"log/slog"
@@ -100,7 +101,11 @@ func compareIPs(x, y []byte) int {
 	addrX, okX := netip.AddrFromSlice(x)
 	addrY, okY := netip.AddrFromSlice(y)
 	if !okX || !okY {
-		panic("unexpected IP address byte slice")
+		// not both IP addresses (the SCION header also allows other host address types and lengths): never equal
+		if c := bytes.Compare(x, y); c != 0 {
+			return c
+		}
+		return 1
 	}
 	return addrX.Unmap().Compare(addrY.Unmap())
 }
